@@ -171,8 +171,24 @@ def _verus_reader_unary(prop: str, fns=("read_unary", "skip_bits"), lemmas=True)
     return out
 
 
+BRU_LEMMAS = ("lemma_sbit_word", "lemma_wbit_bb", "lemma_lz_bb", "lemma_tz_bb", "lemma_shl_bits", "lemma_shr_bits")
+
+
+def _verus_bitreader_unary(prop: str, lemmas=True) -> List[Obl]:
+    out = []
+    pl = prop.lower()
+    for el, E in ENDIANS:
+        out.append(Obl(id=f"{pl}.verus.bitreader.read_unary.{E}", prop=prop, engine="verus", target=f"bitreader_unary:read_unary_{el}",
+                       fns=[f"BitReader<{E},_>::read_unary"],
+                       note="real text; every position, every stream shorter than 2^64 bits, unbounded word loop"))
+    if lemmas:
+        for l in BRU_LEMMAS:
+            out.append(Obl(id=f"{pl}.verus.bitreader.{l}", prop=prop, engine="verus", target=f"bitreader_unary:{l}", fns=[]))
+    return out
+
+
 def _c02() -> List[Obl]:
-    out = _verus_reader_unary("C02")
+    out = _verus_reader_unary("C02") + _verus_bitreader_unary("C02")
     out += _reader("C02", r"c02|confirm", ["new", "read_bits", "peek_bits", "skip_bits_after_peek", "read_unary.K2", "read_unary.K4",
                                  "skip_bits", "skip_bits.K2", "skip_bits.K4", "clone", "confirm"])
     # zero extension of the memory backend (contract of MemWordReader<_,_,true>)
@@ -183,7 +199,7 @@ def _c02() -> List[Obl]:
 
 
 def _c07() -> List[Obl]:
-    out = _verus_reader_unary("C07", lemmas=False)
+    out = _verus_reader_unary("C07", lemmas=False) + _verus_bitreader_unary("C07", lemmas=False)
     out += _reader("C07", r"c07|advance|positioned|move|confirm: position", ["read_bits", "peek_bits", "skip_bits_after_peek", "read_unary.K2",
                                                           "skip_bits", "skip_bits.K2", "bit_pos", "set_bit_pos", "confirm"])
     # the seek contracts of the backends the readers are used with
@@ -199,7 +215,8 @@ def _c07() -> List[Obl]:
 
 
 def _c09_impl() -> List[Obl]:
-    out = _reader("C09", r"c09", ["read_bits", "peek_bits", "read_unary.K2", "read_unary.K4", "skip_bits.K2"])
+    out = _verus_reader_unary("C09", lemmas=False) + _verus_bitreader_unary("C09", lemmas=False)
+    out += _reader("C09", r"c09", ["read_bits", "peek_bits", "read_unary.K2", "read_unary.K4", "skip_bits.K2"])
     for w in ["u8", "u64"]:
         out.append(Obl(id=f"c09.strict_backend.{w}", prop="C09", engine="kani", target=f"obl_c13::{w}_::reader_strict_k3", kind="bounded",
                        bound="array length <= 3", fns=["MemWordReader<_,_,false>::read_word", "MemWordReader<_,_,false>::set_word_pos"]))
